@@ -380,6 +380,72 @@ func (o *httpObs) c03(ids []string) {
 	}
 }
 
+// c02rev: GET changes?reverse=true with every limit, tokens followed: the feed backwards, nothing skipped or repeated.
+func (o *httpObs) c02rev() {
+	h := o.h
+	for _, md := range h.M.LiveInOrder() {
+		name := url.PathEscape(h.DsName(md.Name))
+		var want []*model.Version
+		for i := len(md.Feed) - 1; i >= 0; i-- {
+			want = append(want, md.Feed[i])
+		}
+		for _, limit := range []int{0, 1, 2, 3} {
+			o.n++
+			var got []*server.Entity
+			since := ""
+			pages := 0
+			bad := false
+			for {
+				q := fmt.Sprintf("/datasets/%s/changes?reverse=true", name)
+				if limit > 0 {
+					q += fmt.Sprintf("&limit=%d", limit)
+				}
+				if since != "" {
+					q += "&since=" + url.QueryEscape(since)
+				}
+				ents, tok, err := o.page(q)
+				if err != nil {
+					o.fail("C02:http:reverse-error:"+md.Name, err.Error())
+					bad = true
+					break
+				}
+				pages++
+				got = append(got, ents...)
+				if len(ents) == 0 || tok == "" || limit == 0 {
+					break
+				}
+				if tok == since {
+					o.fail(fmt.Sprintf("C02:http:reverse-token-stuck:%s:limit=%d", md.Name, limit), "a non-empty reverse page came with the same token")
+					bad = true
+					break
+				}
+				since = tok
+				if pages > len(md.Feed)+10 {
+					o.fail(fmt.Sprintf("C02:http:reverse-loop:%s:limit=%d", md.Name, limit), "reverse paging does not terminate")
+					bad = true
+					break
+				}
+			}
+			if bad {
+				continue
+			}
+			ok := len(got) == len(want)
+			for i := 0; ok && i < len(got); i++ {
+				if h.AbsID(got[i].ID) != want[i].ID || !h.AbsContent(got[i]).Equal(want[i].C) {
+					ok = false
+				}
+			}
+			if !ok {
+				var gl []string
+				for _, e := range got {
+					gl = append(gl, h.AbsID(e.ID)+"="+h.AbsContent(e).String())
+				}
+				o.fail(fmt.Sprintf("C02:http:reverse:%s:limit=%d", md.Name, limit), fmt.Sprintf("GET changes?reverse=true of %s (limit %d, following tokens) gives %v; the feed backwards is %v", md.Name, limit, gl, model.FeedStrings(want)))
+			}
+		}
+	}
+}
+
 // js runs a query script through POST /query (Content-Type application/x-javascript-query): the JavaScript
 // bindings Query / PagedQuery / FindById / GetDatasetChanges are observation points of C01-C03.
 func (o *httpObs) js(code string) ([]map[string]interface{}, error) {
@@ -572,6 +638,7 @@ func httpStoreReplay(task engine.SeqTask) (res engine.SeqResult) {
 			o.c01(p.IDs)
 		case "c02":
 			o.c02()
+			o.c02rev()
 			o.c02js()
 		case "c03":
 			o.c03(p.IDs)
